@@ -36,7 +36,15 @@ type Env struct {
 	Doc *xdoc.Doc
 	// Match decides name tests (Kind "name"); nil means "prefix and local name equal".
 	Match func(t xast.NodeTest, n *xdoc.Node) bool
+	// Work counts evaluation steps; beyond Limit (default DefaultLimit) the
+	// evaluation gives up with OutOfDomain: nested predicates over '//' paths on
+	// large documents cost n^k in this deliberately naive evaluator.
+	Work  int64
+	Limit int64
 }
+
+// DefaultLimit bounds the work of one reference evaluation.
+const DefaultLimit = 2000000
 
 // Ctx is the dynamic context.
 type Ctx struct {
@@ -63,6 +71,7 @@ func Eval(env *Env, e xast.Expr, ctx *xdoc.Node) (v interface{}, err error) {
 			panic(r)
 		}
 	}()
+	env.Work = 0
 	return env.eval(e, Ctx{Node: ctx, Pos: 1, Size: 1}), nil
 }
 
@@ -228,9 +237,26 @@ func (env *Env) applyPreds(nodes []*xdoc.Node, preds []xast.Expr) []*xdoc.Node {
 	return nodes
 }
 
+// TryStepNodes is StepNodes with its own work budget; ok is false when the
+// budget ran out (used by generators for guidance only).
+func (env *Env) TryStepNodes(s *xast.Step, n *xdoc.Node) (res []*xdoc.Node, ok bool) {
+	defer func() {
+		if r := recover(); r != nil {
+			if _, is := r.(OutOfDomain); is {
+				res, ok = nil, false
+				return
+			}
+			panic(r)
+		}
+	}()
+	env.Work = 0
+	return env.StepNodes(s, n), true
+}
+
 // StepNodes evaluates one step from one node (axis order, predicates applied).
 func (env *Env) StepNodes(s *xast.Step, n *xdoc.Node) []*xdoc.Node {
 	cand := AxisNodes(s.Axis, n)
+	env.Work += int64(len(cand)) / 8
 	var f []*xdoc.Node
 	for _, m := range cand {
 		if env.TestNode(s.Axis, s.Test, m) {
@@ -244,6 +270,14 @@ func (env *Env) StepNodes(s *xast.Step, n *xdoc.Node) []*xdoc.Node {
 }
 
 func (env *Env) eval(e xast.Expr, c Ctx) interface{} {
+	env.Work++
+	limit := env.Limit
+	if limit == 0 {
+		limit = DefaultLimit
+	}
+	if env.Work > limit {
+		fail("reference evaluator work budget exceeded")
+	}
 	switch x := e.(type) {
 	case *xast.Path:
 		var cur NodeSet
